@@ -490,7 +490,7 @@ func longRuns(c *seq.Ctx) {
 			continue // bounded variants refuse long fills; the priority queue gets its own big capacity below
 		}
 		for _, n := range []int{100, 1000, 4095, 4096, 4097, 8191, 8192, 8193, 16385, 20000, 65537} {
-			for _, pattern := range []string{"fill-drain", "sawtooth", "two-cycles"} {
+			for _, pattern := range []string{"fill-drain", "sawtooth", "two-cycles", "sliding-window"} {
 				var st *state
 				if mk.kind == "priq" {
 					x := priq.NewPriQueue(n + 8)
@@ -599,6 +599,22 @@ func longRuns(c *seq.Ctx) {
 					pop(n - 1)
 					push(n)
 					pop(size)
+				case "sliding-window":
+					// a standing backlog that slides through the storage (pop one, push one), then shrinks in steps
+					back := n
+					if back > 3000 {
+						back = 3000
+					}
+					push(back)
+					for i := 0; i < 2*back+7 && bad == ""; i++ {
+						pop(1)
+						push(1)
+					}
+					for size > 0 && bad == "" {
+						pop((size + 1) / 2)
+						push(1)
+						pop(1)
+					}
 				}
 				c.Case(fmt.Sprintf("long/%s/%s/%v", mk.kind, pattern, bad == ""), bad, mk.kind+" queue loses, reorders or miscounts items in a long "+pattern+" run", func() interface{} {
 					return map[string]interface{}{"queue": mk.name, "n": n, "pattern": pattern}
@@ -608,9 +624,54 @@ func longRuns(c *seq.Ctx) {
 	}
 }
 
+// sizeOptions: a capacity option given twice - the last one wins, and 0 means "no limit" wherever it
+// stands; checked by filling.
+func sizeOptions(c *seq.Ctx) {
+	fill := func(add func(v int) error, full error) int {
+		n := 0
+		for n < 50 {
+			if err := add(n); err != nil {
+				break
+			}
+			n++
+		}
+		return n
+	}
+	for _, a := range []int{0, 1, 2, 5} {
+		for _, b := range []int{-1, 0, 1, 3} {
+			want := b
+			if b == -1 {
+				want = a // only one option given
+			}
+			if want == 0 {
+				want = 50
+			}
+			opts := []q.Option{q.WithSize(a)}
+			mopts := []mq.Option{mq.WithQReqSize(a), mq.WithQCtrlSize(a)}
+			if b >= 0 {
+				opts = append(opts, q.WithSize(b))
+				mopts = append(mopts, mq.WithQReqSize(b), mq.WithQCtrlSize(b))
+			}
+			x := q.NewQ(opts...)
+			got := fill(func(v int) error { return x.AddReq(v) }, q.ErrReqQFull)
+			bad := ""
+			if got != want {
+				bad = fmt.Sprintf("q.NewQ(WithSize(%d), WithSize(%d) [-1 = not given]) accepted %d ordinary adds, want %d (50 = unbounded)", a, b, got, want)
+			}
+			m := mq.NewMQ(mopts...)
+			gr := fill(func(v int) error { return m.AddReq(v) }, mq.ErrReqQFull)
+			gc := fill(func(v int) error { return m.AddCtrl(v) }, mq.ErrCtrlQFull)
+			if bad == "" && (gr != want || gc != want) {
+				bad = fmt.Sprintf("mq.NewMQ with request/control sizes %d then %d [-1 = not given] accepted %d requests and %d controls, want %d each (50 = unbounded)", a, b, gr, gc, want)
+			}
+			c.Case(fmt.Sprintf("size-options/%v", bad == ""), bad, "a capacity option given twice: the last one does not win", func() interface{} { return []int{a, b} })
+		}
+	}
+}
+
 func main() {
 	r := ev.Start("C12")
-	r.Rule("per queue type and capacity: (a) plain enumeration of ALL sequences of non-blocking calls (add / prior add / ctrl add / pop / pop-anyway / try-pop / close / try-close / try-clear / push with priority 0..2) up to the stated depth with no state merging; (b) breadth-first with merging on the list-model state to a greater depth; in both, after EVERY step the call's result, IsClosed/IsCleared/Len and a full drain of a replayed copy are compared with a list model (two lists for MQ, stable priority order for the priority queue); (c) long fill-and-drain, sawtooth and two-cycle runs of 100..65537 items on every unbounded queue and a large priority queue against per-lane FIFO buckets; distinct = (op, result) pairs")
+	r.Rule("per queue type and capacity: (a) plain enumeration of ALL sequences of non-blocking calls (add / prior add / ctrl add / pop / pop-anyway / try-pop / close / try-close / try-clear / push with priority 0..2) up to the stated depth with no state merging; (b) breadth-first with merging on the list-model state to a greater depth; in both, after EVERY step the call's result, IsClosed/IsCleared/Len and a full drain of a replayed copy are compared with a list model (two lists for MQ, stable priority order for the priority queue); (c) long fill-and-drain, sawtooth, two-cycle and sliding-window runs of 100..65537 items on every unbounded queue and a large priority queue against per-lane FIFO buckets; distinct = (op, result) pairs")
 	r.Assume("only calls the model says cannot block are issued (blocking is C13)", "try-close on an already closed and try-clear on an already cleared queue may answer either way")
 	var jobs []func()
 	for _, mk := range makers() {
@@ -628,6 +689,7 @@ func main() {
 		})
 	}
 	jobs = append(jobs, func() { seq.RunFamily(r, seq.Family{Name: "long-fill-and-drain", Run: longRuns}) })
+	jobs = append(jobs, func() { seq.RunFamily(r, seq.Family{Name: "capacity-option-given-twice", Run: sizeOptions}) })
 	seq.Parallel(16, jobs)
 	r.Finish()
 }
